@@ -71,3 +71,18 @@ def tier1_problems(tier, rng):
     for (h, w) in [(3, 3), (2, 5), (5, 2), (4, 4), (3, 6), (6, 5), (1, 7), (7, 1), (8, 8)]:
         for blocks in _random_parts(rng, h, w, 12 if th else 3):
             yield {"h": h, "w": w, "blocks": blocks}
+
+
+def big(tier, rng):
+    """5x5 / 4x6 / 6x4 boards with 3-4 rooms (too many candidate grids to enumerate: every grid the solver admits,
+    up to the cap, is checked against the rules)"""
+    th = tier == "thorough"
+    for (h, w) in [(5, 5), (4, 6), (6, 4)]:
+        k = 0
+        for _ in range(400):
+            blocks = L.random_rooms(rng, h, w, rng.choice([3, 4]))
+            if all(len(b) >= 2 for b in blocks):
+                yield {"h": h, "w": w, "blocks": blocks}
+                k += 1
+                if k >= (16 if th else 4):
+                    break
